@@ -120,10 +120,143 @@ theorem tellTc29_val (bits : Bits) (h : bits.length = 112) (htc : tcB bits = som
       simp [ha, hb, k1, k0, k8, dictHas_123 _ hv, dictHas_123 _ hh]
   · rename_i h0
     have d1 : DocV1 bits := ⟨htc, h0⟩
+    have a1 : (autopilot bits).isVal = true := (modeFlag_shape 47 (by omega) bits h).1 d1
+    have a2 : (vnavMode bits).isVal = true := (modeFlag_shape 48 (by omega) bits h).1 d1
+    have a3 : (altitudeHoldMode bits).isVal = true := (modeFlag_shape 49 (by omega) bits h).1 d1
+    have a4 : (approachMode bits).isVal = true := (modeFlag_shape 51 (by omega) bits h).1 d1
+    have a5 : (lnavMode bits).isVal = true := (modeFlag_shape 53 (by omega) bits h).1 d1
     rw [bind_skip _ ((selectedAltitude_shape bits h).1 d1), bind_skip _ ((baroPressureSetting_shape bits h).1 d1),
-      bind_skip _ ((selectedHeading_shape bits h).1 d1), bind_skip _ ((modeFlag_shape 47 (by omega) bits h).1 d1),
-      bind_skip _ ((modeFlag_shape 48 (by omega) bits h).1 d1), bind_skip _ ((modeFlag_shape 49 (by omega) bits h).1 d1),
-      bind_skip _ ((modeFlag_shape 51 (by omega) bits h).1 d1), bind_skip _ ((modeFlag_shape 53 (by omega) bits h).1 d1)]
+      bind_skip _ ((selectedHeading_shape bits h).1 d1), bind_skip _ a1, bind_skip _ a2, bind_skip _ a3,
+      bind_skip _ a4, bind_skip _ a5]
     tot_reads h
+
+/-! ### ADS-B branch -/
+
+theorem callsignChars_length : Tables.callsignChars.length = 64 := by decide
+
+theorem tellAdsb_val (bits : Bits) (h : bits.length = 112) : tellAdsb bits = .val () := by
+  unfold tellAdsb
+  cases htc : tcB bits with
+  | none => rfl
+  | some tc =>
+    simp -zeta only []
+    extract_lets
+    rename_i j5 j4 j3 j2 j1
+    have h5 : ∀ r, j5 r = .val () := by
+      intro r
+      simp only [j5]
+      split
+      · rename_i h29; subst h29; exact tellTc29_val bits h htc
+      · rfl
+    have h4 : ∀ r, j4 r = .val () := by
+      intro r
+      simp only [j4]
+      split
+      · rw [bind_skip _ ((adsbAltitude_shape bits h).1 ⟨tc, htc, by omega⟩), tellCpr_val bits h]
+        simp only [Res.bind_val]; exact h5 ()
+      · exact h5 ()
+    have h3 : ∀ r, j3 r = .val () := by
+      intro r
+      simp only [j3]
+      split
+      · rename_i h19
+        subst h19
+        obtain ⟨v, hr, hgood⟩ := airborneVelocity_spdType bits h htc
+        rw [hr]
+        simp only [Res.bind_val]
+        cases v with
+        | none => exact h4 ()
+        | some v =>
+          simp only []
+          have : (v.spdType == "GS" || v.spdType == "TAS" || v.spdType == "IAS") = true := by
+            rcases hgood v rfl with hg | hg | hg <;> rw [hg] <;> rfl
+          rw [if_pos this]
+          exact h4 ()
+      · exact h4 ()
+    have h2 : ∀ r, j2 r = .val () := by
+      intro r
+      simp only [j2]
+      split
+      · rw [bind_skip _ ((adsbAltitude_shape bits h).1 ⟨tc, htc, by omega⟩), tellCpr_val bits h]
+        simp only [Res.bind_val]; exact h3 ()
+      · exact h3 ()
+    have h1 : ∀ r, j1 r = .val () := by
+      intro r
+      simp only [j1]
+      split
+      · rw [tellCpr_val bits h]
+        simp only [Res.bind_val]
+        rw [bind_skip _ ((surfaceVelocity_shape bits h).1 ⟨tc, htc, by assumption⟩)]
+        exact h2 ()
+      · exact h2 ()
+    split
+    · rw [bind_skip _ ((callsign_shape callsignChars_length bits h).1 ⟨tc, htc, by assumption⟩)]
+      exact h1 ()
+    · exact h1 ()
+
+/-! ### Comm-B branch -/
+
+theorem tellCommb_val (ias : Rat → Int → Rat) (bits : Bits) (h : bits.length = 112) :
+    tellCommb ias bits = .val () := by
+  unfold tellCommb
+  obtain ⟨bds, hb⟩ := Res.isVal_iff.mp (infer_isVal ias bits true h)
+  rw [hb]
+  simp only [Res.bind_val]
+  split
+  · rw [bind_skip _ (cs20_isVal bits h)]; rfl
+  · rw [bind_skip _ (selalt40mcp_isVal bits h), bind_skip _ (selalt40fms_isVal bits h),
+      bind_skip _ (p40baro_isVal bits h)]; rfl
+  · rw [bind_skip _ (roll50_isVal bits h), bind_skip _ (trk50_isVal bits h), bind_skip _ (rtrk50_isVal bits h),
+      bind_skip _ (gs50_isVal bits h), bind_skip _ (tas50_isVal bits h)]; rfl
+  · rw [bind_skip _ (hdg60_isVal bits h), bind_skip _ (ias60_isVal bits h), bind_skip _ (mach60_isVal bits h),
+      bind_skip _ (vr60baro_isVal bits h), bind_skip _ (vr60ins_isVal bits h)]; rfl
+  · rw [bind_skip _ (wind44_isVal bits h), bind_skip _ (temp44_isVal bits h), bind_skip _ (p44_isVal bits h),
+      bind_skip _ (hum44_isVal bits h), bind_skip _ (turb44_isVal bits h)]; rfl
+  · rw [bind_skip _ (turb45_isVal bits h), bind_skip _ (ws45_isVal bits h), bind_skip _ (mb45_isVal bits h),
+      bind_skip _ (ic45_isVal bits h), bind_skip _ (wv45_isVal bits h), bind_skip _ (temp45_isVal bits h),
+      bind_skip _ (p45_isVal bits h), bind_skip _ (rh45_isVal bits h)]; rfl
+  · rfl
+
+/-! ### tell -/
+
+theorem altcodeB_isVal_df20 (bits : Bits) (h : bits.length = 112) (hd : dfB bits = 20) :
+    (altcodeB bits).isVal = true := by
+  unfold altcodeB
+  simp only []
+  rw [if_neg (by omega)]
+  exact altitude13_isVal _ (by rw [slice_length_of_le (by omega)])
+
+theorem idcodeB_isVal_df21 (bits : Bits) (h : bits.length = 112) (hd : dfB bits = 21) :
+    (idcodeB bits).isVal = true := by
+  unfold idcodeB
+  simp only []
+  rw [if_neg (by omega)]
+  exact squawk_isVal _ (by rw [slice_length_of_le (by omega)])
+
+theorem tell_val (ias : Rat → Int → Rat) (bits : Bits) (h : bits.length = 112) : tell ias bits = .val () := by
+  unfold tell
+  extract_lets
+  rename_i d j3 j2 j1
+  have h3 : ∀ r, j3 r = .val () := by
+    intro r
+    simp only [j3]
+    split
+    · exact tellCommb_val ias bits h
+    · rfl
+  have h2 : ∀ r, j2 r = .val () := by
+    intro r
+    simp only [j2]
+    split
+    · rw [bind_skip _ (idcodeB_isVal_df21 bits h (by assumption))]; exact h3 ()
+    · exact h3 ()
+  have h1 : ∀ r, j1 r = .val () := by
+    intro r
+    simp only [j1]
+    split
+    · rw [bind_skip _ (altcodeB_isVal_df20 bits h (by assumption))]; exact h2 ()
+    · exact h2 ()
+  split
+  · rw [tellAdsb_val bits h]; exact h1 ()
+  · exact h1 ()
 
 end PyModeS.Tot
